@@ -139,34 +139,8 @@ func refAvailable(s *gen.Src, env *gen.Env, asset string, cur balState) (*big.In
 // refAllocate splits amount by portions: floor(amount*p) each, the leftover units
 // one by one to the earliest parts (the rule C24 states).
 func refAllocate(amount *big.Int, por []string, env *gen.Env) ([]*big.Int, bool) {
-	rats := make([]*big.Rat, len(por))
-	sum := new(big.Rat)
-	remIdx := -1
-	for i, p := range por {
-		r, rem, ok := env.Portion(p)
-		if !ok {
-			return nil, false
-		}
-		if rem {
-			if remIdx >= 0 {
-				return nil, false
-			}
-			remIdx = i
-			continue
-		}
-		if r.Sign() < 0 || r.Cmp(big.NewRat(1, 1)) > 0 {
-			return nil, false
-		}
-		rats[i] = r
-		sum.Add(sum, r)
-	}
-	one := big.NewRat(1, 1)
-	if sum.Cmp(one) > 0 {
-		return nil, false
-	}
-	if remIdx >= 0 {
-		rats[remIdx] = new(big.Rat).Sub(one, sum)
-	} else if sum.Cmp(one) != 0 {
+	rats, ok := resolvePortions(por, env)
+	if !ok {
 		return nil, false
 	}
 	parts := make([]*big.Int, len(rats))
